@@ -77,6 +77,8 @@ func runCheckAll(repo, tags string) int {
 	return 0
 }
 
+var sweepOnly string
+
 type globalMutant struct {
 	ID         string   `json:"mutant"`
 	ReportedBy []string `json:"reported_by"`
@@ -104,7 +106,7 @@ func runSweepAll(repo, out string, perFile, par int) int {
 		if !strings.HasPrefix(ps.Filename, repo+"/") || strings.HasSuffix(ps.Filename, "_gen.go") || strings.HasSuffix(ps.Filename, "_test.go") {
 			continue
 		}
-		if strings.Contains(ps.Filename, "/mocks/") {
+		if strings.Contains(ps.Filename, "/mocks/") || (sweepOnly != "" && !strings.Contains(strings.TrimPrefix(ps.Filename, repo+"/"), sweepOnly)) {
 			continue
 		}
 		byFile[ps.Filename] = append(byFile[ps.Filename], funcRange{ps.Filename, ps.Offset, pe.Offset, engine.FuncName(f)})
